@@ -26,6 +26,7 @@ os.environ.setdefault("OMP_NUM_THREADS", "1")
 os.environ.setdefault("OPENBLAS_NUM_THREADS", "1")
 os.environ.setdefault("MKL_NUM_THREADS", "1")
 os.environ.setdefault("AEGEAN_VERIF", "1")
+os.environ.setdefault("TQDM_DISABLE", "1")
 
 
 def harness_fail(msg):
